@@ -36,6 +36,7 @@ type Job struct {
 	Crash      bool              `json:"crash,omitempty"`
 	DiskDep    bool              `json:"disk_dep,omitempty"`
 	SnapDir    string            `json:"snap_dir,omitempty"`
+	SaveFinal  string            `json:"save_final,omitempty"` // copy the disk of the first completed execution here
 	SeedDir    string            `json:"seed_dir,omitempty"` // initial disk state (recovery runs)
 	Clean      bool              `json:"clean,omitempty"`    // remove _scipipe_tmp* and *.fifo from the seed first
 	Pre        map[string]string `json:"pre,omitempty"`      // pre-existing files: path -> content
@@ -82,6 +83,7 @@ type Result struct {
 	Error        string         `json:"error,omitempty"`
 	Crash        []*vs.CrashState `json:"crash,omitempty"`
 	RefOutcome   string         `json:"ref_outcome,omitempty"`
+	ExtraInfo    map[string]interface{} `json:"extra_info,omitempty"`
 }
 
 // Obs is what the oracles see of one execution.
@@ -110,6 +112,12 @@ type runner struct {
 	orders map[string]bool
 	preStat map[string]string
 	preRef  *Ref
+	seedTree map[string]string
+	seedTreeAfterClean map[string]string
+	crashViolations []Violation
+	protected map[string]string
+	protectedHits []string
+	savedFinal bool
 }
 
 func main() {
@@ -191,6 +199,12 @@ func (r *runner) setup() {
 		}
 	}
 	r.preStat = statAll(".")
+	if r.job.SeedDir != "" && r.seedTree == nil {
+		r.seedTree = vs.ReadTree(r.job.SeedDir)
+		r.seedTreeAfterClean = vs.ReadTree(".")
+	}
+	r.crashViolations = nil
+	r.protectedHits = nil
 	errLog.Reset()
 	r.env.reset()
 	r.ret = nil
@@ -269,6 +283,20 @@ func runWorkflowJob(job *Job, res *Result) {
 	r := &runner{job: job, spec: spec, env: &Env{Spec: spec, Fault: job.Fault}, dir: filepath.Join(job.Base, "e"), res: res, seenV: map[string]bool{}, orders: map[string]bool{}}
 	r.ref = spec.reference()
 	refCache[spec] = r.ref
+	if job.Args["list_outputs"] != "" {
+		units := []map[string]string{}
+		for _, t := range r.ref.Tasks {
+			if len(t.Outs) == 0 {
+				continue
+			}
+			u := map[string]string{}
+			for _, p := range t.Outs {
+				u[p] = r.ref.Files[p]
+			}
+			units = append(units, u)
+		}
+		res.ExtraInfo = map[string]interface{}{"task_outputs": units}
+	}
 	vs.EventsDependent = job.EventsDep
 	vs.CrashMode = job.Crash
 	vs.DiskDependent = job.DiskDep
@@ -276,6 +304,8 @@ func runWorkflowJob(job *Job, res *Result) {
 	vs.RaceMode = job.Race
 	vs.ExecMode = "sim"
 	vs.SimExec = r.env.simExec
+	vs.CrashHook = r.crashHook
+	vs.FSHook = r.fsHook
 	if job.ForceOrder != nil {
 		vs.ForceOrder = job.ForceOrder
 	}
@@ -287,7 +317,7 @@ func runWorkflowJob(job *Job, res *Result) {
 	sites := map[string]vs.MapSite{}
 	visit := func(s *vs.Sched) bool {
 		o := r.observe(s)
-		if strings.Contains(o.Outcome, "replay divergence") || strings.Contains(o.Outcome, "panic:vs:") {
+		if strings.Contains(o.Outcome, "replay divergence") || strings.Contains(o.Outcome, "panic:vs:") || strings.HasPrefix(o.Outcome, "unsupported:") {
 			res.Error = "engine error: " + o.Outcome
 			return false
 		}
@@ -302,6 +332,11 @@ func runWorkflowJob(job *Job, res *Result) {
 		}
 		for _, v := range r.check(o) {
 			r.report(v, s)
+		}
+		if job.SaveFinal != "" && o.Outcome == "" && !r.savedFinal {
+			r.savedFinal = true
+			os.RemoveAll(job.SaveFinal)
+			vs.CopyTree(".", job.SaveFinal)
 		}
 		return len(res.Violations) < 20
 	}
@@ -382,9 +417,7 @@ func outcomeKey(o *Obs) string {
 
 func (r *runner) report(v Violation, s *vs.Sched) {
 	v.Job = r.job.ID
-	if v.Signature == "" {
-		v.Signature = r.res.Scenario + "|" + v.Class + "|" + v.Detail
-	}
+	r.normalise(&v)
 	if r.seenV[v.Signature] {
 		return
 	}
@@ -401,9 +434,7 @@ func (r *runner) report(v Violation, s *vs.Sched) {
 			}
 			same := false
 			for _, v2 := range r.check(o2) {
-				if v2.Signature == "" {
-					v2.Signature = r.res.Scenario + "|" + v2.Class + "|" + v2.Detail
-				}
+				r.normalise(&v2)
 				if v2.Signature == v.Signature {
 					same = true
 				}
@@ -430,6 +461,17 @@ func (r *runner) report(v Violation, s *vs.Sched) {
 		}
 	}
 	r.res.Violations = append(r.res.Violations, v)
+}
+
+func (r *runner) normalise(v *Violation) {
+	if v.Prop != r.job.Prop {
+		// an auxiliary oracle of another property fired inside this property's check
+		v.Class = strings.ToLower(v.Prop) + ":" + v.Class
+		v.Prop = r.job.Prop
+	}
+	if v.Signature == "" {
+		v.Signature = r.res.Scenario + "|" + v.Class + "|" + v.Detail
+	}
 }
 
 func sanitize(s string) string {
